@@ -373,6 +373,8 @@ class CallMixin:
             w = fn.what
             if w == "builtin":
                 return self.call_builtin(fn.payload, args, kwargs, path, node)
+            if w == "seq":
+                raise Unsupported("call of a sequence", node)
             if w == "ext":
                 return self.call_ext(fn.payload, args, kwargs, path, node)
             if w == "func":
@@ -530,6 +532,9 @@ class CallMixin:
             if k is not None and isinstance(argmap.get(name), sv.SUnion):
                 argmap[name] = self.expect(argmap[name], k, path, node, what="argtype")
         ctx_pre = Ctx(self, path, argmap)
+        if self.cur_contract is not None and self.frame_depth == 0 and c.name in self.cur_contract.call_checks:
+            cc = Ctx(self, path, self.cur_args, None, path.env)
+            self.oblige(path, f"call-site:{c.name}", self.cur_contract.call_checks[c.name](cc, argmap), node)
         if c.requires is not None:
             self.oblige(path, f"pre:{c.name}", c.requires(ctx_pre), node)
         old_heap = dict(path.heap)
